@@ -271,13 +271,7 @@ class Gate(QOperation):
 
         # calc new HS
         new_choi_matrix = eigenvecs @ diag @ eigenvecs.T.conjugate()
-        new_hs = to_hs_from_choi_with_sparsity(
-            self.composite_system,
-            new_choi_matrix,
-            eps_truncate_imaginary_part=mutil.calc_eps_truncate_for_spectrum(
-                eigenvals
-            ),
-        )
+        new_hs = to_hs_from_choi_with_sparsity(self.composite_system, new_choi_matrix)
 
         # create new Gate
         new_gate = Gate(
@@ -333,9 +327,7 @@ class Gate(QOperation):
         new_hs = to_hs_from_choi_with_sparsity(
             c_sys,
             new_choi_matrix,
-            eps_truncate_imaginary_part=mutil.calc_eps_truncate_for_spectrum(
-                eigenvals, eps_truncate_imaginary_part
-            ),
+            eps_truncate_imaginary_part=eps_truncate_imaginary_part,
         )
 
         # HS to var
